@@ -16,6 +16,7 @@ import CV.Proofs.StoreCatVip
 import CV.Proofs.StoreCatCex
 import CV.Proofs.StoreCatRename
 import CV.Proofs.StoreCatUsage
+import CV.Proofs.StoreCatSync
 namespace CV.Props.C07
 open CV CV.Store
 
@@ -52,6 +53,16 @@ theorem one_row_per_key_reachable (log : XLog) (hwf : XLog.wf log) (q : String) 
     (∀ a ∈ c.st.nodes, ∀ b ∈ c.st.nodes, a.pk = b.pk → a = b) ∧ (∀ a ∈ c.st.svcs, ∀ b ∈ c.st.svcs, a.pk = b.pk → a = b) := by
   have h := (catOK_replayX log _ hwf CatOK.empty).orphan q
   exact ⟨fun a ha b hb hk => sortedBy_unique h.srt_nodes ha hb hk, fun a ha b hb hk => sortedBy_unique h.srt_svcs ha hb hk⟩
+
+/-- **The wrapper's attribute table is always in step with the service table** (no hypothesis on the log): in
+    every reachable state, for every catalog, `ext` has exactly the primary keys of the service table, in the same
+    order; hence the joined view `rows` keeps every service row, and the model-internal error `desync` (a service
+    row without attributes) is never raised from a reachable state. -/
+theorem ext_in_step_reachable (log : XLog) (q : String) :
+    let c := (replayX XState.empty log).cat q
+    c.ext.map SvcX.pk = c.st.svcs.map Svc.pk ∧ c.rows.length = c.st.svcs.length := by
+  have h := syncAll_replayX log XState.empty SyncAll.empty q
+  exact ⟨h, rows_length_of_sync h⟩
 
 /-- the invariant is inductive: one committed command preserves it from ANY state that satisfies it -/
 theorem cat_inv_step {s : XState} (idx : Nat) (c : XCmd) (hwf : c.wf) (hs : CatOK s) : CatOK (applyX s idx c).1 :=
